@@ -19,6 +19,7 @@ from __future__ import annotations
 import ast
 import builtins
 import importlib
+import operator as _operator
 import string as _string
 import sys
 import typing as t
@@ -210,6 +211,10 @@ class _Break(Exception):
 
 class _Continue(Exception):
     pass
+
+
+# callables the interpreter itself has to apply to interpreted values (sort keys ...)
+_INTERPRETED_KEYS = (FuncVal, ClsVal, _operator.attrgetter, _operator.methodcaller, _operator.itemgetter)
 
 
 class Env:
@@ -543,6 +548,24 @@ class World:
                     finally:
                         self.frames.pop()
                 return True, self.class_memo[mk]
+            # `a, b = x, y` in the class body: the element standing at the name's position
+            packed = [(st, i) for st in k.node.body if isinstance(st, ast.Assign) and len(st.targets) == 1 and isinstance(st.targets[0], (ast.Tuple, ast.List))
+                      for i, tg in enumerate(st.targets[0].elts) if isinstance(tg, ast.Name) and tg.id == name]
+            if packed:
+                mk = (k.fq, name)
+                if mk not in self.class_memo:
+                    st, i = packed[0]
+                    tgs = st.targets[0].elts  # type: ignore[attr-defined]
+                    if len(packed) != 1 or not isinstance(st.value, (ast.Tuple, ast.List)) or len(st.value.elts) != len(tgs) or any(isinstance(x, ast.Starred) for x in [*tgs, *st.value.elts]):
+                        raise self.nu(f"class attribute {k.name}.{name} is bound by an unpacking assignment that is not written out element by element", node)
+                    fv0 = FuncVal(ast.parse("def _class_(): pass").body[0], k.module, None)
+                    self.frames.append((fv0, st.value.elts[i]))
+                    try:
+                        fr = Frame(self, fv0, Env(), k.module, clsns=k)
+                        self.class_memo[mk] = fr.ev(st.value.elts[i])
+                    finally:
+                        self.frames.pop()
+                return True, self.class_memo[mk]
         return False, None
 
     _TRANSPARENT_DECORATORS = ("property", "staticmethod", "classmethod", "cached_property", "lru_cache", "cache", "wraps", "final", "override", "no_type_check", "setter", "deleter")
@@ -855,7 +878,33 @@ class World:
             return Sym("call", "builtins.len", (args[0],), (), styp=int, site=site)
         if fn is builtins.bool and len(args) == 1:
             return self.truth(args[0], node)
-        if fn in (builtins.sorted, builtins.min, builtins.max) and "key" in kwargs and isinstance(kwargs["key"], (FuncVal,)):
+        if isinstance(fn, (_operator.attrgetter, _operator.methodcaller, _operator.itemgetter)) and len(args) == 1 and not kwargs and not deep_concrete(args[0]):
+            # operator.attrgetter("a.b") / methodcaller("m", ...) / itemgetter(i) applied to an interpreted value
+            made = fn.__reduce__()
+            if made[0] is not type(fn):
+                raise self.nu(f"{type(fn).__name__} with keyword arguments", node)
+            if isinstance(fn, _operator.attrgetter):
+                got = []
+                for dotted_name in made[1]:
+                    o = args[0]
+                    for part in dotted_name.split("."):
+                        o = self.getattr(o, part, node)
+                    got.append(o)
+                return got[0] if len(got) == 1 else tuple(got)
+            if isinstance(fn, _operator.methodcaller):
+                return self.call(self.getattr(args[0], made[1][0], node), list(made[1][1:]), {}, node)
+            if isinstance(args[0], (list, tuple, dict)) and deep_concrete(list(made[1])):
+                try:
+                    got = [args[0][i] for i in made[1]]
+                except (LookupError, TypeError) as e:
+                    raise Raised(ExcObj(type(e), e.args))
+                return got[0] if len(got) == 1 else tuple(got)
+            raise self.nu("itemgetter on a value that is not a plain container", node)
+        if fq == "builtins.dict.fromkeys" and 1 <= len(args) <= 2 and not kwargs and not isinstance(args[0], (Sym, Obj, GenVal)):
+            keys = list(args[0])
+            if deep_concrete(keys):
+                return dict.fromkeys(keys, args[1] if len(args) == 2 else None)
+        if fn in (builtins.sorted, builtins.min, builtins.max) and "key" in kwargs and isinstance(kwargs["key"], _INTERPRETED_KEYS):
             items = list(self.iterate(args[0], node))
             keys = [self.call(kwargs["key"], [x], {}, node) for x in items]
             if not deep_concrete(keys):
@@ -867,7 +916,7 @@ class World:
                 raise Raised(ExcObj(ValueError, ("empty sequence",)))
             idx = min(range(len(items)), key=lambda i: keys[i]) if fn is builtins.min else max(range(len(items)), key=lambda i: keys[i])
             return items[idx]
-        if getattr(fn, "__name__", "") == "sort" and isinstance(getattr(fn, "__self__", None), list) and isinstance(kwargs.get("key"), FuncVal):
+        if getattr(fn, "__name__", "") == "sort" and isinstance(getattr(fn, "__self__", None), list) and isinstance(kwargs.get("key"), _INTERPRETED_KEYS):
             lst = fn.__self__
             keys = [self.call(kwargs["key"], [x], {}, node) for x in lst]
             if not deep_concrete(keys):
@@ -1709,7 +1758,19 @@ class Frame:
             return
         if isinstance(st, ast.AugAssign):
             cur = self.ev(_as_load(st.target))
-            val = self.binop(st.op, cur, self.ev(st.value), st)
+            rhs = self.ev(st.value)
+            if isinstance(cur, list) and isinstance(st.op, ast.Add) and not isinstance(rhs, (Sym, Obj, str, bytes)):
+                # `xs += iterable` extends the list object in place (any iterable, not only a list)
+                cur.extend(list(w.iterate(rhs, st)))
+                val = cur
+            elif isinstance(cur, dict) and isinstance(st.op, ast.BitOr) and isinstance(rhs, dict):
+                cur.update(rhs)
+                val = cur
+            elif isinstance(cur, set) and isinstance(st.op, ast.BitOr) and isinstance(rhs, (set, frozenset)):
+                cur.update(rhs)
+                val = cur
+            else:
+                val = self.binop(st.op, cur, rhs, st)
             self.assign(st.target, val)
             return
         if isinstance(st, ast.Return):
